@@ -3,6 +3,6 @@ CONSTANTS
   Peers = {"p1"}
   Self = "self"
   MaxEpoch = 2
-  Defects = {"StaleLeftEpoch", "StickyLeftFilter"}
-  Depth = 4
+  Defects = {"StaleLeftEpoch", "LateStartReassign", "StickyLeftFilter"}
+  Depth = 3
 CONSTRAINT Emit
